@@ -420,6 +420,31 @@ def serveStatsOp (ls qs : String) (impl : Option String) : String :=
     let (_, outs) := queries.zipIdx.foldl step ([], [])
     "cdb:" ++ "~".intercalate outs
 
+
+/-- `dflt <line>`: (type, ttl[, SOA serial and timers]) of every record of a line without explicit TTL;
+the Spec side uses the documented literals, the model side the extracted constants -/
+def dfltOp (line : Bytes) : Out :=
+  let cfg : Cfg := { serial := serial, noRnetOutput := true, ranger := true }
+  match convertLine cfg noSvcb line with
+  | .error _ => { model := "err" }
+  | .ok lo =>
+    let pfx := line.headD 0
+    let render (useSpec : Bool) : String :=
+      ",".intercalate (lo.kvs.filterMap fun (_, v) =>
+        match extractRR v false, extractRR v true with
+        | .row r, _ | _, .row r =>
+          let ttl := if useSpec then Spec.defaultTTL pfx r.qtype else r.ttl
+          let base := s!"{r.qtype}:{ttl}"
+          if r.qtype = 6 ∧ v.length ≥ 20 then
+            let t := v.drop (v.length - 20)
+            let word (i : Nat) : Nat := (rd32 (t.drop (4 * i))).getD 0
+            let explicitSerial := word 0
+            let timers := if useSpec then Spec.defaultSoaTimers else [word 1, word 2, word 3, word 4]
+            some (base ++ s!"/{explicitSerial}" ++ "".intercalate (timers.map fun x => s!"/{x}"))
+          else some base
+        | _, _ => none)
+    { model := render false, spec := "=" ++ render true }
+
 def handle (st : St) (op : String) (args : List String) (impl : Option String) :
     Option (St × Out) :=
   match op, args with
@@ -444,6 +469,8 @@ def handle (st : St) (op : String) (args : List String) (impl : Option String) :
     some (st, { model := "A{" ++ ma ++ "}B{" ++ mb ++ "}", spec := v })
   | "loc", [ls, cs] =>
     some (st, locOp ls cs impl)
+  | "dflt", [l] =>
+    (Bytes.ofHex l).map fun b => (st, dfltOp b)
   | "servestats", [ls, qs] =>
     some (st, { model := serveStatsOp ls qs impl })
   | _, _ => none
